@@ -114,6 +114,16 @@ def rmaker():
 
 rfun = rmaker()
 ''',
+    "lfun": '''
+def lmaker():
+    a = 0
+
+    def lfun(x):
+        a = x + {K}
+        return a
+
+    return lfun
+''',
     "dec": '''
 @rec
 def dec(x):
@@ -137,8 +147,8 @@ def rec(fn):
     return wrapper
 '''
 
-TARGETS = ["top", "meth", "om", "inner", "leaf", "dec", "maker", "deep", "ctop", "hdec", "rfun"]  # ctop/hdec share their bare names with top/dec
-PROBE_ONLY = {"maker", "deep"}  # calling them again would create a second live closure
+TARGETS = ["top", "meth", "om", "inner", "leaf", "dec", "maker", "deep", "ctop", "hdec", "rfun", "lmaker", "lfun"]  # ctop/hdec share their bare names with top/dec
+PROBE_ONLY = {"maker", "deep", "lmaker"}  # calling them again would create a second live closure
 
 _DIR = None
 _N = [0]
@@ -187,14 +197,28 @@ class World:
         self.ks = ks
         self.outer = mod.Outer() if hasattr(mod, "Outer") else None
         self.innerobj = mod.Outer.Inner() if hasattr(mod, "Outer") else None
-        self.present = {t for t in TARGETS if self._has(t)}  # fixed at import time
+        self.lfun = None  # the only instance of lmaker's closure is created by a ("make",) operation
+        self.present = {t for t in TARGETS if t != "lfun" and self._has(t)}  # fixed at import time
+
+    def make(self):
+        if self.lfun is None and "lmaker" in self.present:
+            self.lfun = self.mod.lmaker()
+            self.present.add("lfun")
+            return True
+        return False
+
+    def env(self):
+        e = dict(vars(self.mod))
+        if self.lfun is not None:
+            e["lfun"] = self.lfun
+        return e
 
     def has(self, t):
         return t in self.present
 
     def _has(self, t):
         return {"top": "top", "meth": "Outer", "om": "Outer", "inner": "inner", "leaf": "leaf", "dec": "dec",
-                "maker": "maker", "deep": "deep", "ctop": "Coll", "hdec": "hdec", "rfun": "rfun"}[t] in vars(self.mod)
+                "maker": "maker", "deep": "deep", "ctop": "Coll", "hdec": "hdec", "rfun": "rfun", "lmaker": "lmaker"}[t] in vars(self.mod)
 
     def real(self, t):
         """The function object created by the def."""
@@ -202,7 +226,8 @@ class World:
         return {"top": lambda: m.top, "meth": lambda: m.Outer.Inner.meth, "om": lambda: m.Outer.om,
                 "inner": lambda: m.inner, "leaf": lambda: m.leaf, "dec": lambda: m.REG["dec"],
                 "maker": lambda: m.maker, "deep": lambda: m.deep, "ctop": lambda: m.Coll.top,
-                "hdec": lambda: m.hdec, "rfun": lambda: m.rfun}[t]()
+                "hdec": lambda: m.hdec, "rfun": lambda: m.rfun, "lmaker": lambda: m.lmaker,
+                "lfun": lambda: self.lfun}[t]()
 
     def handle(self, t):
         """What a user would pass to refstring()."""
@@ -210,12 +235,13 @@ class World:
         return {"top": lambda: m.top, "meth": lambda: m.Outer.Inner.meth, "om": lambda: m.Outer.om,
                 "inner": lambda: m.inner, "leaf": lambda: m.leaf, "dec": lambda: m.dec,
                 "maker": lambda: m.maker, "deep": lambda: m.deep, "ctop": lambda: m.Coll.top,
-                "hdec": lambda: m.hdec, "rfun": lambda: m.rfun}[t]()
+                "hdec": lambda: m.hdec, "rfun": lambda: m.rfun, "lmaker": lambda: m.lmaker,
+                "lfun": lambda: self.lfun}[t]()
 
     def name_selector(self, t):
         return {"top": "top > a", "meth": "Outer.Inner.meth > a", "om": "Outer.om > a", "inner": "inner > a",
                 "leaf": "leaf > a", "dec": "dec > a", "maker": "maker > a", "deep": "deep > a",
-                "ctop": "Coll.top > a", "hdec": "hdec > a", "rfun": "rfun > a"}[t]
+                "ctop": "Coll.top > a", "hdec": "hdec > a", "rfun": "rfun > a", "lmaker": "lmaker > a", "lfun": "lfun > a"}[t]
 
     def call(self, t, x):
         m = self.mod
@@ -225,6 +251,8 @@ class World:
             return self.outer.om(x)
         if t == "ctop":
             return m.Coll().top(x)
+        if t == "lfun":
+            return self.lfun(x)
         return getattr(m, t)(x)
 
 
@@ -263,6 +291,24 @@ def run_case(order, ks, ops, regime, rec=None):
         for op in ops:
             kind = op[0]
             t = op[1] if len(op) > 1 else None
+            if kind == "make":
+                # the closure's one and only instance comes to life now - possibly while its
+                # factory is instrumented
+                live = [s for s in stack if s[0] == "lmaker"]
+                if world.make():
+                    done.append(op)
+                    for s in live:
+                        s[4].append({"a": 0})  # the factory's own `a = 0`
+                    if any(s[0] in ("lmaker", "anc:lmaker") for s in stack):
+                        flags.add("instance-created-under-probe")
+                    states["lfun"] = HY.FnState(world.real("lfun"))
+                    pin()
+                    try:
+                        refs["lfun"] = refstring(world.handle("lfun"))
+                    except BaseException as e:
+                        raise PropertyViolation("refstring", f"refstring(lfun) raised {HY.describe_exc(e)}\n{ctxt()}",
+                                                extra={"bucket": "refstring:lfun"})
+                continue
             if t is not None and not world.has(t):
                 continue
             done.append(op)
@@ -287,7 +333,7 @@ def run_case(order, ks, ops, regime, rec=None):
                 if how == "ref" and others:
                     flags.add("ref-activation-while-probed")
                 try:
-                    p = probing(sel, env=vars(mod))
+                    p = probing(sel, env=world.env())
                     sink = p.accum()
                     p.__enter__()
                 except BaseException as e:
@@ -365,7 +411,7 @@ def run_case(order, ks, ops, regime, rec=None):
         code_registry.always_use_cache = False
         drop_module(mod, path)
     if rec is not None:
-        nt = bool(flags & {"resolve-while-probed", "ref-activation-while-probed"})
+        nt = bool(flags & {"resolve-while-probed", "ref-activation-while-probed", "instance-created-under-probe"})
         rec.case(h64(repr((order, sorted(ks.items()), ops, regime))), nt, flags | {"regime:" + regime},
                  sample=lambda: {"blocks": order, "ops": [list(o) for o in ops], "regime": regime})
         rec.evaluations += len(ops) - 1
@@ -391,18 +437,19 @@ def strategy(max_ops):
         st.tuples(st.just("call"), tgt, st.integers(0, 9)),
         st.tuples(st.just("resolve"), tgt),
         st.tuples(st.just("resolve"), tgt),
+        st.tuples(st.just("make")),
     )
 
     @st.composite
     def cases(draw):
         order = draw(st.permutations(sorted(BLOCKS)))
         order = list(order)[: draw(st.integers(2, len(order)))]
-        ks = {t: draw(st.integers(1, 40)) * 20 + i for i, t in enumerate(["top", "meth", "om", "inner", "leaf", "dec", "ctop", "hdec", "rfun"])}
+        ks = {t: draw(st.integers(1, 40)) * 20 + i for i, t in enumerate(["top", "meth", "om", "inner", "leaf", "dec", "ctop", "hdec", "rfun", "lfun"])}
         # bias: operate mostly on one or two targets so that probes overlap
         focus = draw(st.one_of(
             st.lists(tgt, min_size=1, max_size=2),
             st.sampled_from([["inner", "maker"], ["leaf", "deep"], ["meth", "om"], ["leaf", "deep", "maker"],
-                             ["top", "ctop"], ["dec", "hdec"], ["rfun"]]),
+                             ["top", "ctop"], ["dec", "hdec"], ["rfun"], ["lfun", "lmaker"], ["lfun", "lmaker", "lfun"]]),
         ))
         ops = draw(st.lists(op, min_size=3, max_size=max_ops))
         ops = [(o[0], focus[hash(o) % len(focus)], *o[2:]) if len(o) > 1 and draw(st.integers(0, 2)) else o for o in ops]
